@@ -434,6 +434,41 @@ theorem legacy_perm (m : MethodS) (h : (m.fields.map (pyFieldName m.protoPlus)).
   rw [legacy_order m h]
   exact (List.filter_append_perm _ _).map _
 
+theorem inj_of_nodup_map {α β : Type} (f : α → β) : ∀ {l : List α}, (l.map f).Nodup →
+    ∀ a ∈ l, ∀ b ∈ l, f a = f b → a = b
+  | [], _, a, ha, _, _, _ => by simp at ha
+  | x :: l, h, a, ha, b, hb, hab => by
+    rw [List.map_cons, List.nodup_cons] at h
+    rcases List.mem_cons.mp ha with rfl | ha' <;> rcases List.mem_cons.mp hb with rfl | hb'
+    · rfl
+    · exact absurd (List.mem_map.mpr ⟨b, hb', hab.symm⟩) h.1
+    · exact absurd (List.mem_map.mpr ⟨a, ha', hab⟩) h.1
+    · exact inj_of_nodup_map f h.2 a ha' b hb' hab
+
+/-- **Required first, whatever the field's presence**: the model's field is (name, REQUIRED, number) — whether it is
+a plain field, a proto3 `optional` field (synthetic oneof) or a member of a real oneof is not an input of
+`legacyNames`.  So for every request the list splits into the REQUIRED fields (all of them, in declaration order)
+followed by the others (in declaration order): a REQUIRED `optional` / oneof-member field declared after
+non-required fields still comes before every non-required one. -/
+theorem legacy_required_first_presence_irrelevant (m : MethodS) (h : (m.fields.map (pyFieldName m.protoPlus)).Nodup) :
+    ∃ pre post, legacyNames m = pre ++ post ∧
+      pre = (m.fields.filter (·.required)).map (pyFieldName m.protoPlus) ∧
+      post = (m.fields.filter (fun f => !f.required)).map (pyFieldName m.protoPlus) ∧
+      (∀ f ∈ m.fields, f.required = true → pyFieldName m.protoPlus f ∈ pre) ∧
+      (∀ f ∈ m.fields, f.required = false → pyFieldName m.protoPlus f ∈ post ∧ pyFieldName m.protoPlus f ∉ pre) := by
+  refine ⟨_, _, ?_, rfl, rfl, ?_, ?_⟩
+  · rw [legacy_order m h, List.map_append]
+  · intro f hf hr
+    exact List.mem_map.mpr ⟨f, List.mem_filter.mpr ⟨hf, by simp [hr]⟩, rfl⟩
+  · intro f hf hr
+    refine ⟨List.mem_map.mpr ⟨f, List.mem_filter.mpr ⟨hf, by simp [hr]⟩, rfl⟩, ?_⟩
+    intro hmem
+    obtain ⟨g, hg, hgf⟩ := List.mem_map.mp hmem
+    have hgm := (List.mem_filter.mp hg)
+    have : g = f := inj_of_nodup_map _ h g hgm.1 f hf hgf
+    rw [this, hr] at hgm
+    simp at hgm
+
 /-- every request field is listed: nothing is dropped, nothing is added -/
 theorem legacy_lists_every_field (m : MethodS) (h : (m.fields.map (pyFieldName m.protoPlus)).Nodup) :
     (legacyNames m).length = m.fields.length := by
@@ -517,6 +552,14 @@ example : mApplyShared.protoPlus = false := rfl
 example : (mApplyShared.fields.map (·.name)).Nodup := by decide
 example : legacyNames mApplyShared =
     ["spec".toList, "parent".toList, "class".toList, "note".toList, "filter_spec".toList, "kind".toList, "tags".toList] := by decide
+
+/-- `GetBookRequest { view; oneof key { name [REQUIRED]; isbn }; parent [REQUIRED] }` and
+`DeleteBookRequest { etag; optional name [REQUIRED] }`: the REQUIRED oneof member / proto3-optional field is listed first -/
+example : legacyNames ⟨"GetBook".toList, false, true,
+    [⟨"view".toList, false, 1⟩, ⟨"name".toList, true, 2⟩, ⟨"isbn".toList, false, 3⟩, ⟨"parent".toList, true, 4⟩], false⟩ =
+    ["name".toList, "parent".toList, "view".toList, "isbn".toList] := by decide
+example : legacyNames ⟨"DeleteBook".toList, false, true, [⟨"etag".toList, false, 1⟩, ⟨"name".toList, true, 2⟩], false⟩ =
+    ["name".toList, "etag".toList] := by decide
 
 /-- the legacy order of a message whose field numbers run AGAINST the declaration order is still the
 declaration order (required first) -/
